@@ -12,7 +12,7 @@ from gen_grammar import GrammarError
 CALLBACK_KIND = {  # callbacks that name their node kind implicitly (ExpressionBuilder.cpp); cross-checked by correspondence
     'expr_pre_increment': 'PRE_INCREMENT', 'expr_post_increment': 'POST_INCREMENT',
     'expr_pre_decrement': 'PRE_DECREMENT', 'expr_post_decrement': 'POST_DECREMENT',
-    'expr_inline_if': 'INLINE_IF', 'expr_array': 'ARRAY', 'expr_dot': 'DOT', 'expr_location': 'LOCATION_EXPR',
+    'expr_inline_if': 'INLINE_IF', 'expr_array': 'ARRAY', 'expr_dot': 'DOT', 'expr_location': 'DOT',
     'expr_forall_end': 'FORALL', 'expr_exists_end': 'EXISTS', 'expr_sum_end': 'SUM',
 }
 
